@@ -9,6 +9,7 @@ import (
 	"errors"
 	"fmt"
 	"os"
+	"sort"
 	"sync"
 
 	"github.com/samsarahq/thunder/batch"
@@ -33,7 +34,18 @@ type c10RowJ struct {
 	A  *int64
 	B  int64
 	S  string
-	J  c10J `sql:",json"`
+	J  c10J   `sql:",json"`
+	T  string // T and U hold strings with blanks: value tuples over (u, t) that print alike are different tuples
+	U  string
+}
+
+var c10SpaceStrs = []string{"a b", "a", "b c", "c", "<nil>"}
+
+// c10Pair: a table with a composite primary key
+type c10Pair struct {
+	K1 int64 `sql:",primary"`
+	K2 int64 `sql:",primary"`
+	V  int64
 }
 
 // c10J: a column stored as JSON; a filter on it travels as the struct and is compared as the marshalled bytes
@@ -44,7 +56,7 @@ type c10BadValuer struct{}
 
 func (c10BadValuer) Value() (driver.Value, error) { return nil, errors.New("c10: value rejected") }
 
-var c10ColID = map[string]int{"id": 0, "a": 1, "b": 2, "s": 3, "j": 4, "p": 5}
+var c10ColID = map[string]int{"id": 0, "a": 1, "b": 2, "s": 3, "j": 4, "p": 5, "t": 6, "u": 7}
 
 // c10Val: a filter value: payload and the Go representation it travels in
 type c10Val struct {
@@ -79,6 +91,8 @@ func (v c10Val) goValue() interface{} {
 		return &c10J{K: v.V}
 	case "bad":
 		return c10BadValuer{}
+	case "sp":
+		return c10SpaceStrs[int(v.V)%len(c10SpaceStrs)]
 	}
 	return v.V
 }
@@ -87,7 +101,10 @@ func (v c10Val) enc() interface{} {
 	if v.Rep == "nil" || v.Rep == "nilptr" {
 		return nil
 	}
-	ty := map[string]int{"int64": 0, "int": 1, "ptr": 2, "named": 3, "string": 4, "strptr": 5, "json": 6, "jsonptr": 7}[v.Rep]
+	ty := map[string]int{"int64": 0, "int": 1, "ptr": 2, "named": 3, "string": 4, "strptr": 5, "json": 6, "jsonptr": 7, "sp": 4}[v.Rep]
+	if v.Rep == "sp" {
+		return map[string]interface{}{"ty": ty, "v": 100 + v.V%int64(len(c10SpaceStrs))}
+	}
 	return map[string]interface{}{"ty": ty, "v": v.V}
 }
 
@@ -97,8 +114,22 @@ type c10KV struct {
 }
 
 type c10Case struct {
-	Table   [][]int64 `json:"table"` // id, a (-1: NULL), b, s
+	Table   [][]int64 `json:"table"` // id, a (-1: NULL), b, s, j, t, u
 	Filters [][]c10KV `json:"filters"`
+	Order   []int     `json:"order,omitempty"` // per call: 0 no options, 1 OrderBy id DESC, 2 OrderBy b DESC
+}
+
+func (cs c10Case) options(i int) *sqlgen.SelectOptions {
+	if i >= len(cs.Order) {
+		return nil
+	}
+	switch cs.Order[i] {
+	case 1:
+		return &sqlgen.SelectOptions{OrderBy: "id DESC"}
+	case 2:
+		return &sqlgen.SelectOptions{OrderBy: "b DESC"}
+	}
+	return nil
 }
 
 func c10Filter(f []c10KV) sqlgen.Filter {
@@ -141,19 +172,20 @@ func c10ModelIds(v interface{}) []int64 {
 func c10One(c *Ctx, m *Model, cs c10Case) {
 	rep := c.Rep
 	fdb, conn := newFakeDB()
-	fdb.createTable("rows", []string{"id", "a", "b", "s", "j"}, []string{"id"})
+	fdb.createTable("rows", []string{"id", "a", "b", "s", "j", "t", "u"}, []string{"id"})
 	table := []interface{}{}
 	for _, r := range cs.Table {
-		for len(r) < 5 {
+		for len(r) < 7 {
 			r = append(r, 0)
 		}
+		ti, ui := int(r[5])%len(c10SpaceStrs), int(r[6])%len(c10SpaceStrs)
 		a := driverNull(r[1], r[1] < 0)
-		fdb.tables["rows"].Rows = append(fdb.tables["rows"].Rows, map[string]driverValue{"id": r[0], "a": a, "b": r[2], "s": fmt.Sprintf("s%d", r[3]), "j": []byte(fmt.Sprintf(`{"K":%d}`, r[4]))})
+		fdb.tables["rows"].Rows = append(fdb.tables["rows"].Rows, map[string]driverValue{"id": r[0], "a": a, "b": r[2], "s": fmt.Sprintf("s%d", r[3]), "j": []byte(fmt.Sprintf(`{"K":%d}`, r[4])), "t": c10SpaceStrs[ti], "u": c10SpaceStrs[ui]})
 		var am interface{}
 		if r[1] >= 0 {
 			am = r[1]
 		}
-		table = append(table, []interface{}{[]interface{}{0, r[0]}, []interface{}{1, am}, []interface{}{2, r[2]}, []interface{}{3, r[3]}, []interface{}{4, r[4]}})
+		table = append(table, []interface{}{[]interface{}{0, r[0]}, []interface{}{1, am}, []interface{}{2, r[2]}, []interface{}{3, r[3]}, []interface{}{4, r[4]}, []interface{}{6, int64(100 + ti)}, []interface{}{7, int64(100 + ui)}})
 	}
 	schema := sqlgen.NewSchema()
 	schema.MustRegisterType("rows", sqlgen.UniqueId, c10RowJ{})
@@ -163,7 +195,7 @@ func c10One(c *Ctx, m *Model, cs c10Case) {
 	aloneErr := make([]error, k)
 	for i, f := range cs.Filters {
 		var out []*c10RowJ
-		aloneErr[i] = db.Query(context.Background(), &out, c10Filter(f), nil)
+		aloneErr[i] = db.Query(context.Background(), &out, c10Filter(f), cs.options(i))
 		alone[i] = c10Ids(out)
 	}
 	fdb.resetLog()
@@ -182,7 +214,7 @@ func c10One(c *Ctx, m *Model, cs c10Case) {
 				}
 			}()
 			var out []*c10RowJ
-			batchedErr[i] = db.Query(ctx, &out, c10Filter(cs.Filters[i]), nil)
+			batchedErr[i] = db.Query(ctx, &out, c10Filter(cs.Filters[i]), cs.options(i))
 			batched[i] = c10Ids(out)
 		}(i)
 	}
@@ -232,6 +264,19 @@ func c10One(c *Ctx, m *Model, cs c10Case) {
 			rep.Fail("model_ne_spec", nil, cs, map[string]interface{}{"what": "model: the batched call differs from the call alone (theorems batch_eq_alone, call_batched_eq_alone)", "query": i})
 			return
 		}
+		if cs.options(i) != nil {
+			// the model returns rows in table order: an ordered call is compared as a set here (its order alone /
+			// batched was compared above)
+			sa, sm := append([]int64{}, alone[i]...), append([]int64{}, mAlone...)
+			sort.Slice(sa, func(x, y int) bool { return sa[x] < sa[y] })
+			sort.Slice(sm, func(x, y int) bool { return sm[x] < sm[y] })
+			if fmt.Sprint(sa) != fmt.Sprint(sm) {
+				rep.Fail("impl_ne_model", nil, cs, map[string]interface{}{"what": "rows of an ordered query on its own differ (as a set) from the model", "query": i, "impl": alone[i], "model": mAlone})
+				return
+			}
+			rep.Count("ordered_call")
+			continue
+		}
 		if fmt.Sprint(alone[i]) != fmt.Sprint(mAlone) {
 			rep.Fail("impl_ne_model", nil, cs, map[string]interface{}{"what": "rows of a query on its own differ from the model", "query": i, "filter": cs.Filters[i], "impl": alone[i], "model": mAlone})
 			return
@@ -258,6 +303,18 @@ func c10GenFilter(r *Rand) []c10KV { return c10GenFilterN(r, 8) }
 func c10GenFilterN(r *Rand, kinds int) []c10KV {
 	intRep := func() string { return []string{"int64", "int64", "int", "ptr", "named"}[r.Intn(5)] }
 	var f []c10KV
+	if kinds > 8 && r.Chance(0.15) {
+		// strings with blanks over one or two columns: ("a b", "c") and ("a", "b c") print alike
+		sp := func() c10Val { return c10Val{"sp", int64(r.Intn(len(c10SpaceStrs)))} }
+		switch r.Intn(3) {
+		case 0:
+			return []c10KV{{"u", sp()}, {"t", sp()}}
+		case 1:
+			return []c10KV{{"t", sp()}}
+		default:
+			return []c10KV{{"t", c10Val{"sp", int64(r.Intn(2))}}, {"u", c10Val{"sp", int64(2 + r.Intn(2))}}}
+		}
+	}
 	switch r.Intn(kinds) {
 	case 8:
 		f = []c10KV{{"j", c10Val{[]string{"json", "jsonptr"}[r.Intn(2)], int64(r.Intn(3))}}}
@@ -303,7 +360,7 @@ func runC10(c *Ctx) error {
 		return err
 	}
 	defer m.Close()
-	c.Rep.Rule = "random tables (0-8 rows, nullable pointer column, small value domains so that filters overlap) x sets of 1-5 filters (every 40th case 90-270) over different column sets (id / b / a / a+b / s / b+s / j (a JSON column, filtered by struct or pointer) / j+b / empty), filters sqlgen rejects (unknown column, a value whose Valuer fails) mixed in, equal filters repeated, values carried as int64, int, *int64, a named integer type, string, *string, nil and typed nil pointers; every filter is queried on its own and then all of them concurrently under batch.WithBatching on the same fake database; rows per call compared (the property), and compared with the Lean model's alone / dispatched"
+	c.Rep.Rule = "random tables (0-8 rows, nullable pointer column, small value domains so that filters overlap) x sets of 1-5 filters (every 40th case 90-270) over different column sets (id / b / a / a+b / s / b+s / j (a JSON column, filtered by struct or pointer) / j+b / empty), filters sqlgen rejects (unknown column, a value whose Valuer fails) mixed in, strings with blanks over two columns (tuples that print alike), calls with an OrderBy option next to calls without options, a second table with a composite primary key (filters on one key column, QueryRow), equal filters repeated, values carried as int64, int, *int64, a named integer type, string, *string, nil and typed nil pointers; every filter is queried on its own and then all of them concurrently under batch.WithBatching on the same fake database; rows per call compared (the property), and compared with the Lean model's alone / dispatched"
 	c.Rep.Assumptions = append(c.Rep.Assumptions,
 		"string comparison is case-sensitive in the fake database and in sqlgen's row tester (MySQL collations are not modelled)",
 		"whether concurrent calls end up in one batch is up to the batch timer; the number of statements is recorded")
@@ -325,12 +382,23 @@ func runC10(c *Ctx) error {
 	// corpus: the two shapes of the recorded finding
 	c10One(c, m, c10Case{Table: [][]int64{{10, 1, 0, 0}}, Filters: [][]c10KV{{{"id", c10Val{"int", 10}}}, {{"id", c10Val{"int64", 11}}}}})
 	c10One(c, m, c10Case{Table: [][]int64{{1, -1, 0, 0}, {2, 5, 0, 0}}, Filters: [][]c10KV{{{"a", c10Val{"nil", 0}}}, {{"id", c10Val{"int64", 2}}}}})
+	// directed: value tuples that print alike - sqlgen orders the columns of a group by name, (t, u): ("a b","c") and
+	// ("a","b c") - in both arrival orders
+	for _, fs := range [][][]c10KV{
+		{{{"t", c10Val{"sp", 0}}, {"u", c10Val{"sp", 3}}}, {{"t", c10Val{"sp", 1}}, {"u", c10Val{"sp", 2}}}},
+		{{{"t", c10Val{"sp", 1}}, {"u", c10Val{"sp", 2}}}, {{"t", c10Val{"sp", 0}}, {"u", c10Val{"sp", 3}}}},
+		{{{"u", c10Val{"sp", 2}}, {"t", c10Val{"sp", 1}}}, {{"t", c10Val{"sp", 0}}, {"u", c10Val{"sp", 3}}}, {{"t", c10Val{"sp", 0}}, {"u", c10Val{"sp", 2}}}},
+	} {
+		for k := 0; k < 4; k++ {
+			c10One(c, m, c10Case{Table: [][]int64{{1, 1, 0, 0, 0, 0, 3}, {2, 1, 0, 0, 0, 1, 2}, {3, -1, 1, 1, 0, 0, 2}}, Filters: fs})
+		}
+	}
 	r := c.Rng
 	n := c.N(700, 40000)
 	for i := 0; i < n && !c.Rep.ShouldStop(); i++ {
 		var cs c10Case
 		for id := int64(1); id <= int64(r.Intn(9)); id++ {
-			cs.Table = append(cs.Table, []int64{id, int64(r.Intn(4)) - 1, int64(r.Intn(3)), int64(r.Intn(3)), int64(r.Intn(3))})
+			cs.Table = append(cs.Table, []int64{id, int64(r.Intn(4)) - 1, int64(r.Intn(3)), int64(r.Intn(3)), int64(r.Intn(3)), int64(r.Intn(len(c10SpaceStrs))), int64(r.Intn(len(c10SpaceStrs)))})
 		}
 		k := 1 + r.Intn(5)
 		if i%40 == 7 {
@@ -344,7 +412,112 @@ func runC10(c *Ctx) error {
 				cs.Filters = append(cs.Filters, c10GenFilterN(r, 11))
 			}
 		}
+		if r.Chance(0.3) {
+			for range cs.Filters {
+				cs.Order = append(cs.Order, []int{0, 0, 1, 2}[r.Intn(4)])
+			}
+		}
 		c10One(c, m, cs)
+		if i%6 == 0 {
+			c10Pairs(c, r)
+		}
 	}
 	return nil
+}
+
+// c10Pairs: a table with a composite primary key; filters naming one key column, both, a key column and another
+// column, none; Query and QueryRow; alone and together under batching.
+func c10Pairs(c *Ctx, r *Rand) {
+	rep := c.Rep
+	fdb, conn := newFakeDB()
+	fdb.createTable("pairs", []string{"k1", "k2", "v"}, []string{"k1", "k2"})
+	var table [][]int64
+	seen := map[[2]int64]bool{}
+	for n := 2 + r.Intn(7); n > 0; n-- {
+		k := [2]int64{int64(1 + r.Intn(3)), int64(1 + r.Intn(3))}
+		if seen[k] {
+			continue
+		}
+		seen[k] = true
+		row := []int64{k[0], k[1], int64(r.Intn(3))}
+		table = append(table, row)
+		fdb.tables["pairs"].Rows = append(fdb.tables["pairs"].Rows, map[string]driverValue{"k1": row[0], "k2": row[1], "v": row[2]})
+	}
+	schema := sqlgen.NewSchema()
+	schema.MustRegisterType("pairs", sqlgen.UniqueId, c10Pair{})
+	db := sqlgen.NewDB(conn, schema)
+	type call struct {
+		Filter map[string]int64 `json:"filter"`
+		Row    bool             `json:"query_row"`
+	}
+	var calls []call
+	for k := 2 + r.Intn(5); k > 0; k-- {
+		f := map[string]int64{}
+		switch r.Intn(6) {
+		case 0:
+			f["k1"] = int64(1 + r.Intn(3))
+		case 1:
+			f["k2"] = int64(1 + r.Intn(3))
+		case 2:
+			f["k1"], f["k2"] = int64(1+r.Intn(3)), int64(1+r.Intn(3))
+		case 3:
+			f["k1"], f["v"] = int64(1+r.Intn(3)), int64(r.Intn(3))
+		case 4:
+			f["v"] = int64(r.Intn(3))
+		}
+		calls = append(calls, call{f, r.Chance(0.3)})
+	}
+	cs := map[string]interface{}{"pairs": table, "calls": calls}
+	run := func(ctx context.Context, cl call) (string, error) {
+		f := sqlgen.Filter{}
+		for k, v := range cl.Filter {
+			f[k] = v
+		}
+		if cl.Row {
+			var one *c10Pair
+			if err := db.QueryRow(ctx, &one, f, nil); err != nil {
+				return "", err
+			}
+			return fmt.Sprint(*one), nil
+		}
+		var out []*c10Pair
+		if err := db.Query(ctx, &out, f, nil); err != nil {
+			return "", err
+		}
+		s := ""
+		for _, p := range out {
+			s += fmt.Sprint(*p)
+		}
+		return s, nil
+	}
+	alone := make([]string, len(calls))
+	aloneErr := make([]error, len(calls))
+	for i, cl := range calls {
+		alone[i], aloneErr[i] = run(context.Background(), cl)
+	}
+	ctx := batch.WithBatching(context.Background())
+	got := make([]string, len(calls))
+	gotErr := make([]error, len(calls))
+	var wg sync.WaitGroup
+	for i := range calls {
+		wg.Add(1)
+		go func(i int) {
+			defer wg.Done()
+			defer func() {
+				if p := recover(); p != nil {
+					gotErr[i] = fmt.Errorf("panic: %v", p)
+				}
+			}()
+			got[i], gotErr[i] = run(ctx, calls[i])
+		}(i)
+	}
+	wg.Wait()
+	for i := range calls {
+		if alone[i] != got[i] || fmt.Sprint(aloneErr[i]) != fmt.Sprint(gotErr[i]) {
+			rep.Fail("impl_ne_spec", nil, cs, map[string]interface{}{"what": "composite primary key: a batched call returns something else than the same call on its own", "call": calls[i], "alone": alone[i], "alone_error": fmt.Sprint(aloneErr[i]), "batched": got[i], "batched_error": fmt.Sprint(gotErr[i])})
+			return
+		}
+	}
+	rep.Count("composite_key_batches")
+	rep.Eval(Canon(cs), len(calls) > 1, map[string]interface{}{"calls": len(calls)})
 }
